@@ -34,6 +34,22 @@ REGISTRY["C09"] = {
             "oracle over the observation log: mutual exclusion, owner identity, FIFO, no barging, cancel-safety, idle at the end, no deadlock.",
     "note": "Trusted: z3, CrossHair, CPython's C Task/Future/deque, VLoop stubs. Outside: >3 tasks, queues >3, uvloop, trio.",
 }
+REGISTRY["C12"] = {
+    "harnesses": ["symx.harness.c12_mem"],
+    "level": "model_checking",
+    "text": "Bounded symbolic model checking of the real memory object stream code on the real asyncio loop logic with a virtual clock: 2-4 sender/receiver parties "
+            "(blocking and *_nowait), start delays, gaps, max_buffer_size and the cancel instant (tick + cycle offset, scope or native cancel) symbolic, so every ordering "
+            "incl. the hand-over cycle is executed; oracle over the log: exactly-once, no invention, per-sender order, FIFO service of blocked senders/receivers, buffer bound.",
+    "note": "Trusted: z3, CrossHair, CPython's C Task/Future/deque/OrderedDict, VLoop stubs. Outside: >4 parties, >2 items per sender, uvloop, trio.",
+}
+REGISTRY["C13"] = {
+    "harnesses": ["symx.harness.c13_mem_close"],
+    "level": "model_checking",
+    "text": "Bounded symbolic model checking of the real memory object stream closing logic: parties own clones and close them at symbolic instants (end of their program, "
+            "cancellation), with blocked peers on the other side; oracle: EndOfStream / BrokenResourceError / ClosedResourceError exactly when the statement allows, "
+            "every blocked peer is woken (virtual loop deadlock detection), statistics() counts equal the true number of open clones at every step.",
+    "note": "Trusted: as C12. Outside: >4 parties, uvloop, trio.",
+}
 
 NOT_APPLICABLE = {
     "C17": "TLS record framing/fragmentation/truncation happens inside OpenSSL (ssl.SSLObject/MemoryBIO, C code): no available engine can execute it symbolically, and a stub would make the check a statement about the stub (DESIGN.md section 3, C17).",
